@@ -190,8 +190,14 @@ def run_batch(batch_name, seed=0, keep=True, retry=True):
     if bad:
         res['status'] = 'tool'
         res['problems'].append('provenance check failed for: ' + ', '.join(bad))
-    path = os.path.join(BUILD, batch_name + '.rs')
+    # per-process file name: concurrent runs of the same batch (several checks at once) must not overwrite each other's
+    # input between the first run and the reseeded retries; <name>.rs is kept as a readable copy of the latest generation
+    path = os.path.join(BUILD, f'{batch_name}_p{os.getpid()}.rs')
     open(path, 'w').write(text)
+    try:
+        open(os.path.join(BUILD, batch_name + '.rs'), 'w').write(text)
+    except OSError:
+        pass
     trusted = scan_trusted(text)
     declared = set(getattr(mod, 'TRUSTED', []))
     found = set(n for k, n in trusted if k != 'assume')
@@ -230,8 +236,21 @@ def run_batch(batch_name, seed=0, keep=True, retry=True):
         still_failing_fns = None
         still_keys = None
         for k in range(2):
-            js2, diags2, dt2, _ = run_verus(path, ['--rlimit', str(getattr(mod, 'RETRY_RLIMIT', 40)), '--smt-option', f'smt.random_seed={seed * 7 + k + 1}'], multiple_errors=me)
+            extra2 = []
+            skip = False
+            for a in extra:       # the batch's own arguments, minus its --rlimit (replaced by the larger retry limit)
+                if skip:
+                    skip = False
+                    continue
+                if a == '--rlimit':
+                    skip = True
+                    continue
+                extra2.append(a)
+            js2, diags2, dt2, _ = run_verus(path, extra2 + ['--rlimit', str(getattr(mod, 'RETRY_RLIMIT', 40)), '--smt-option', f'smt.random_seed={seed * 7 + k + 1}'], multiple_errors=me)
             e2, t2, l2, _ = analyse(text, fnmap, js2, diags2)
+            if t2 or js2 is None:
+                # a retry that did not even get to verification proves nothing: everything is still failing
+                e2, l2 = list(errors), list(limits)
             fns2 = set(e['fn'] for e in e2 + l2)
             keys2 = set((e['fn'], e['msg'], e['line']) for e in e2)
             limfns2 = set(l['fn'] for l in l2)
@@ -295,6 +314,12 @@ def run_batch(batch_name, seed=0, keep=True, retry=True):
         'sha256': hashlib.sha256(text.encode()).hexdigest()[:16],
         'cmd': ' '.join(verus_cmd(path, extra, me)),
     })
+    try:
+        os.remove(path)
+    except OSError:
+        pass
+    res['path'] = os.path.join(BUILD, batch_name + '.rs')
+    res['cmd'] = res['cmd'].replace(path, res['path'])
     return res
 
 
